@@ -924,8 +924,9 @@ fn jwk_input(wide: bool, ch: &mut Chooser) -> (JwkInput, usize) {
     _ => ch.choose("private", 2),
   };
   let nv = |w: usize| if wide { w } else { 2 };
-  let use_ = ch.choose("use", nv(3));
-  let key_ops = ch.choose("key_ops", nv(3));
+  // (use and key_ops over all their values in both tiers: their combinations are what a consistency check looks at)
+  let use_ = ch.choose("use", 3);
+  let key_ops = ch.choose("key_ops", 4);
   let alg = ch.choose("alg", 2);
   let kid = ch.choose("kid", nv(3));
   let x5u = ch.choose("x5u", 2);
@@ -984,7 +985,7 @@ fn jwk_input(wide: bool, ch: &mut Chooser) -> (JwkInput, usize) {
     m.push(("use", q(["sig", "enc"][use_ - 1])));
   }
   if key_ops > 0 {
-    m.push(("key_ops", [r#"["verify"]"#, r#"["encrypt","wrapKey"]"#][key_ops - 1].to_string()));
+    m.push(("key_ops", [r#"["verify"]"#, r#"["encrypt","wrapKey"]"#, r#"["deriveKey","deriveBits"]"#][key_ops - 1].to_string()));
   }
   if alg > 0 {
     m.push(("alg", q(["EdDSA", "ECDH-ES", "ES256", "ES256K", "ES384", "RS256", "HS256"][kty])));
@@ -1017,7 +1018,11 @@ fn jwk_input(wide: bool, ch: &mut Chooser) -> (JwkInput, usize) {
   let secret = private != 0 || kty == 6;
   let signs = use_ == 1 || key_ops == 1;
   let encrypts = use_ == 2 || key_ops == 2;
+  // key agreement (deriveKey / deriveBits) goes with use "enc" (RFC 7517 4.2) and with the key types that can agree on keys
+  let derives = key_ops == 3;
   let consistent = !(signs && encrypts)
+    && !(derives && signs)
+    && !(derives && !(1..=4).contains(&kty))
     && !(signs && kty == 1) // X25519 does not sign
     && !(encrypts && kty == 0) // Ed25519 does not encrypt
     && !(key_ops == 2 && (2..=4).contains(&kty)) // an EC key agrees on keys, it neither encrypts nor wraps
@@ -1510,7 +1515,7 @@ fn generate(ctx: &Ctx) {
   ctx.add_transitions((raws.len() * ROUTES.len()) as u64);
   ctx.add_traces((raws.len() * ROUTES.len()) as u64);
   ctx.part("did:jwk identifiers that encode no JWK", json!({"cases": raws.len(), "routes": ROUTES.len()}));
-  ctx.bound("jwk_optional_member_values", if wide { "use 0..2, key_ops 0..2, kid 0..2, others 0..1 (all subsets)" } else { "every member absent/present (all 256 subsets)" });
+  ctx.bound("jwk_optional_member_values", if wide { "use 0..2, key_ops 0..3, kid 0..2, others 0..1 (all subsets)" } else { "use 0..2, key_ops 0..3, every other member absent/present (all subsets)" });
 }
 
 fn main() {
